@@ -312,7 +312,7 @@ def no_cached_derived(ctx, rule="R14.4"):
                 if not reads:
                     continue
                 writes = [n for n in ast.walk(fn) if isinstance(n, ast.Attribute) and n.attr == "_integral_scale" and isinstance(n.ctx, ast.Store)]
-                ok = bool(writes) and min(w.lineno for w in writes) <= min(r.lineno for r in reads)
+                ok = bool(writes) and min(w._ord for w in writes) <= min(r._ord for r in reads)
                 ctx.check(ok, rule, "%s::%s.%s" % (c.module.relpath, c.name, name), "cached integral scale is read only after it was just recomputed", "stale-cache")
     # _sft follows dim and hankel_kw
     cmx, ex, extra = explorer(prog)
